@@ -470,6 +470,45 @@ pub fn exec(plan: &Plan) -> Outcome {
                         continue;
                     }
                     let t = table.as_ref().unwrap();
+                    // the leaf evaluation itself, at this position and at every successor: mate scores
+                    // (by remaining depth), zero for stalemate, the static score otherwise
+                    {
+                        let mut probe_gen = MoveGenerator::new();
+                        let mut probes: Vec<Pos> = vec![cur.clone()];
+                        probes.extend(legal.iter().map(|m| cur.make(m)));
+                        let mut bad: Option<(String, String)> = None;
+                        'probe: for p in probes.iter() {
+                            if p.half >= 90 {
+                                continue;
+                            }
+                            let terminal = !p.has_legal_move();
+                            let checked = p.in_check(p.stm);
+                            for rd in [0u8, *d] {
+                                let mut b = build_board(p, None);
+                                let got = evaluate::score(&mut b, &mut probe_gen, color(p.stm), rd);
+                                let (want, kind) = if terminal && checked {
+                                    (t.mated[if p.stm == Side::White { 0 } else { 1 }][rd as usize], "checkmate")
+                                } else if terminal {
+                                    stats.bump("probe/leaf-score-on-stalemate");
+                                    (0, "stalemate")
+                                } else {
+                                    (leaf_value(p), "static")
+                                };
+                                evals += 1;
+                                if got != want {
+                                    bad = Some((
+                                        format!("C08/leaf-score/{}-position-scored-wrongly/remaining-depth-{}", kind, if rd == 0 { "0" } else { "n" }),
+                                        format!("{}: score(remaining depth {}) = {}, expected {} ({})", p.to_fen(), rd, got, want, kind),
+                                    ));
+                                    break 'probe;
+                                }
+                            }
+                        }
+                        if let Some((class, detail)) = bad {
+                            out.violation = Some(Violation { class, detail, at_op: i });
+                            break;
+                        }
+                    }
                     let mut fresh_ctx;
                     let c: &mut SearchContext = if reuse {
                         stats.bump("fault/context-reused");
